@@ -39,6 +39,7 @@ func main() {
 	cat := g1lib.Catalog()
 	apiLaws(r, cat)
 	sqlLayer(r, cat)
+	jsonNumberBattery(r)
 	pinned(r)
 	r.Floor(r.Counter("api.compare.calls") > 0, "Type.Compare never called")
 	r.Floor(r.Counter("api.triples") > 0, "no triple evaluated")
